@@ -12,7 +12,8 @@ Fixpoint stun_has_change_port (fuel : nat) (a : bytes) : bool :=
       let ty := u16_at 0 a in
       let len := u16_at 2 a in
       ((ty =? 3) && (4 <=? len) && testbit (u8_at 7 a) 2) ||
-      stun_has_change_port fuel' (skipn (4 + N.to_nat len) a)
+      (* attributes are padded to a multiple of 4 bytes (RFC 5389, section 15) *)
+      stun_has_change_port fuel' (skipn (4 + N.to_nat (((len + 3) / 4) * 4)) a)
   end.
 
 Definition stun_change_port (payload : bytes) : bool :=
